@@ -244,6 +244,16 @@ def equivalent(t1, t2):
                 if Da is not None:
                     dirs.add(Da)
     if len(dirs) > 1:
+        # each function on its own varies along one direction, and the directions differ: a piecewise-linear function
+        # with a real kink (two pieces with different values) along D1 cannot equal one that is smooth there
+        d1 = {direction(a)[0] for g, _ in P1 for a in g} - {None}
+        d2 = {direction(a)[0] for g, _ in P2 for a in g} - {None}
+        if len(d1) == 1 and len(d2) == 1 and d1 != d2:
+            for P, D_ in ((P1, next(iter(d1))), (P2, next(iter(d2)))):
+                vals = {v for _, v in P}
+                if len(vals) > 1:
+                    return False, ('the breakpoints lie on different hyperplanes: ' + Lin(dict(next(iter(d1)))).show() + ' = const  vs  ' +
+                                   Lin(dict(next(iter(d2)))).show() + ' = const')
         raise Unrecognised('guards vary along more than one direction: ' + '; '.join(Lin(dict(D)).show() for D in dirs))
     if not dirs:
         v1 = {v for g, v in P1 if all(_interval_of_atom(a, None) for a in g)}
